@@ -131,6 +131,39 @@ func execLogMw(args []string) string {
 	return strings.Join(out, " ;; ")
 }
 
+// logmw2: args = code (0 = the handler sets none), number of LogMiddlewares in the chain.  Each of the
+// middlewares reports, in its own "finished" record, the status code the wrapped handler set.
+func execLogMw2(args []string) string {
+	var mu sync.Mutex
+	var recs []string
+	l := slog.New(capHandler{mu: &mu, recs: &recs})
+	code, n := Atoi(args[0]), Atoi(args[1])
+	var mws []httputil.Middleware
+	for i := 0; i < n; i++ {
+		mws = append(mws, httputil.NewLogMiddleware(l, slog.LevelInfo))
+	}
+	inner := http.HandlerFunc(func(w http.ResponseWriter, r *http.Request) {
+		if code != 0 {
+			w.WriteHeader(code)
+		}
+		_, _ = w.Write([]byte("x"))
+	})
+	req := httptest.NewRequest("GET", "http://h.example/p", nil)
+	rec := &callRecorder{hdr: http.Header{}}
+	httputil.Wrap(inner, mws...).ServeHTTP(rec, req)
+	var codes []string
+	for _, r := range recs {
+		if i := strings.Index(r, " code="); i >= 0 && strings.HasPrefix(r, "finished") {
+			c := r[i+6:]
+			if j := strings.IndexByte(c, ' '); j >= 0 {
+				c = c[:j]
+			}
+			codes = append(codes, c)
+		}
+	}
+	return "finished=" + strings.Join(codes, ",") + " client=" + strings.Join(rec.calls, ".")
+}
+
 // logmwlvl: args = middleware level, logger threshold, "method,host,uri,raddr".  The wrapped handler logs
 // one ERROR record through the logger it finds in the request context.  Whatever the two levels are, that
 // logger carries the request's host, method, raddr and request_uri; the middleware's own two records
@@ -167,6 +200,11 @@ func execLogMwLvl(args []string) string {
 }
 
 func genC20(g *G) {
+	for _, code := range []int{0, 200, 201, 204, 301, 404, 500, 503} {
+		for n := 1; n <= 3; n++ {
+			g.Emit("logmw2", I(code), I(n))
+		}
+	}
 	for _, mwl := range []int{-8, -4, 0, 4, 8} {
 		for _, thr := range []int{-8, -4, 0, 4, 8} {
 			g.Emit("logmwlvl", I(mwl), I(thr), "GET,h"+I(mwl+thr+20)+".example,/p?x="+I(thr)+",10.1.2.3:4"+I(mwl+10))
@@ -202,7 +240,7 @@ func genC20(g *G) {
 func init() {
 	properties["C20"] = &Property{
 		Gen:   genC20,
-		Exec:  map[string]Executor{"wrap": execWrap, "logmw": execLogMw, "logmwlvl": execLogMwLvl},
+		Exec:  map[string]Executor{"wrap": execWrap, "logmw": execLogMw, "logmwlvl": execLogMwLvl, "logmw2": execLogMw2},
 		Class: func(fn string, args []string, obs string) string { return fn },
 		Rule:  "wrap: middleware lists of length 0..5 recording pre/post order; Wrap is called twice on the same caller-owned slice. logmw: 1..5 successive requests through one LogMiddleware (so pooled objects are reused) with distinct method/host/URI/remote address, handlers that write headers 0..2 times (incl. 1xx then final) and bodies; observed: what the inner handler sees, what the client receives, the 'started' and 'finished' records with the context logger's four attributes and the code. The concurrent interleavings are explored by the -race driver 'logmw' of cmd/conc. distinct=arguments",
 	}
